@@ -197,16 +197,23 @@ def check_loaded(ctx, exp, score):
 def pair_kern_parts(den, staves, parts):
     """Part order is not judged: pair spines with parts by best agreement of (onset, pitch) sets."""
     import itertools
-    sigs = []
+    sigs, staffs = [], []
     for p in parts:
         tl = Timeline(p)
-        sigs.append(collections.Counter((tl.q(n.start.t), n.step, n.alter or 0, n.octave) for n in p.notes))
-    want = [collections.Counter((n["on"], n["step"], n["alter"] or 0, n["oct"]) for n in den[sn]["notes"]) for sn in staves]
-    best, best_score = None, -1
+        c = collections.Counter((tl.q(n.start.t), n.step, n.alter or 0, n.octave) for n in p.notes)
+        c.update((tl.q(r.start.t), "rest", tl.q(r.end.t)) for r in p.rests)
+        sigs.append(c)
+        staffs.append({x.staff for x in list(p.notes) + list(p.rests)})
+    want = []
+    for sn in staves:
+        c = collections.Counter((n["on"], n["step"], n["alter"] or 0, n["oct"]) for n in den[sn]["notes"])
+        c.update((r["on"], "rest", r["on"] + r["dur"]) for r in den[sn]["rests"])
+        want.append(c)
+    best, best_score = None, None
     for perm in itertools.permutations(range(len(parts))):
-        s = sum(sum((want[i] & sigs[j]).values()) for i, j in enumerate(perm))
-        # prefer the reader's documented order (reversed spines = staves top-down) on ties
-        if s > best_score:
+        s = (sum(sum((want[i] & sigs[j]).values()) for i, j in enumerate(perm)),
+             sum(1 for i, j in enumerate(perm) if staffs[j] == {staves[i]}))
+        if best_score is None or s > best_score:
             best, best_score = perm, s
     return [(sn, parts[best[i]]) for i, sn in enumerate(staves)]
 
@@ -363,10 +370,11 @@ def check_part(ctx, exp, sn, d, part):
 
     # ---- group B: layers / spines -> voices, staves
     ctx.check()
-    want_staff = sn if (fmt == "mei" or o.get("staff", True)) else 1
+    staff_encoded = fmt == "mei" or o.get("staff", True)      # a kern spine without *staff encodes no staff number
+    want_staff = sn if staff_encoded else None
     for i, e in enumerate(exp_events):
         g = matched[i]
-        if g["staff"] != want_staff:
+        if staff_encoded and g["staff"] != want_staff:
             V(f"{fmt}-staff-wrong:{e['kind']}", f"{e['kind']} {e['id']} of staff {want_staff} loaded with staff {g['staff']}",
               expected=brief(e), got=brief(g))
             break
@@ -482,7 +490,7 @@ def check_part(ctx, exp, sn, d, part):
     ctx.check(3)
     ts = [(tl.q(x.start.t), (x.beats, x.beat_type)) for x in part.iter_all(S.TimeSignature)]
     ks = [(tl.q(x.start.t), (x.fifths, x.mode)) for x in part.iter_all(S.KeySignature)]
-    cs = [(tl.q(x.start.t), (x.sign, x.line)) for x in part.iter_all(S.Clef) if x.staff == want_staff]
+    cs = [(tl.q(x.start.t), (x.sign, x.line)) for x in part.iter_all(S.Clef) if not staff_encoded or x.staff == want_staff]
     probe = [F(0)] + ([m[0] for m in d["measures"]] if (clean and doc_clean) else [])
     seen = set()
     for t in probe:
@@ -769,7 +777,7 @@ def plan(tier, seed):
     for i in range(nx):
         items.append(["xmei", i])
         items.append(["xkern", i])
-    items += [["dispatch", i] for i in range(4 if tier == "quick" else 12)]
+    items += [["dispatch", i] for i in range(4 if tier == "quick" else 40)]
     items += [["fixture", f] for f in fixtures()]
     if tier == "thorough":
         # the readers do not iterate over sets; a small hash-seed sweep confirms the results do not depend on it
